@@ -70,6 +70,7 @@ type c13case struct {
 	Exclude   bool      `json:"with_exclude"`
 	NoGateway bool      `json:"no_gateway_mac"`
 	VPN       bool      `json:"vpn"`
+	SlowErrUs int       `json:"error_sink_delay_us,omitempty"`
 	RandSeed  int64     `json:"rand_seed"`
 }
 
@@ -209,7 +210,7 @@ func c13run(run *vlab.Run, dir string, c *c13case) {
 		fb.WriteString(l.text)
 		fb.WriteByte('\n')
 	}
-	spec := &scanSpec{Scan: c.Scan, Layer: c.Layer, Ports: c.Ports, HasFile: true, FileContent: fb.String(), VPN: c.VPN, NoGateway: c.NoGateway, RandSeed: c.RandSeed, Workers: 3}
+	spec := &scanSpec{Scan: c.Scan, Layer: c.Layer, Ports: c.Ports, HasFile: true, FileContent: fb.String(), VPN: c.VPN, NoGateway: c.NoGateway, RandSeed: c.RandSeed, Workers: 3, SlowErrUs: c.SlowErrUs}
 	// stack: exclusion covers the first valid entry's /31; cache knows every second valid address
 	var ex []oracle.CIDR
 	cache := map[uint32]string{}
@@ -239,7 +240,11 @@ func c13run(run *vlab.Run, dir string, c *c13case) {
 		run.Violation("spec-rejected", fmt.Sprintf("%v: %+v", err, c), c)
 		return
 	}
-	obs := runScanDelay(run, ctx, b, 120*time.Second, 100*time.Millisecond)
+	exitDelay := 100 * time.Millisecond
+	if c.SlowErrUs > 0 {
+		exitDelay = 500 * time.Millisecond // up to ~200 queued records x the sink's delay must drain
+	}
+	obs := runScanDelay(run, ctx, b, 120*time.Second, exitDelay)
 	run.Eval(1)
 	if obs.parked {
 		run.Violation("scan-parked", fmt.Sprintf("scan over a file with a bad entry did not complete: %+v", c), c)
@@ -391,7 +396,30 @@ func c13cases(run *vlab.Run) []*c13case {
 		}
 		cases = append(cases, c)
 	}
-	// ---- unsupported range: start > end port range -> one error, no probe
+	// ---- bursts of bad lines larger than every error buffer (100 slots), read by a slow error sink:
+	// one error per bad entry still, none dropped, neighbours unaffected
+	for i := 0; i < run.Pick(40, 400); i++ {
+		v := variants[rng.Intn(len(variants))]
+		if v.layer != "engine" {
+			continue
+		}
+		c := &c13case{Scan: v.scan, Layer: v.layer, Mode: v.mode, Ports: v.ports, Exclude: rng.Intn(2) == 0, RandSeed: rng.Int63(), SlowErrUs: []int{200, 1000, 2000}[rng.Intn(3)]}
+		n := 150 + rng.Intn(250)
+		for j := 0; j < n; j++ {
+			class := "valid"
+			if rng.Intn(3) != 0 {
+				for {
+					k := c13classes[rng.Intn(len(c13classes))]
+					if (k.ModeOK == "both" || k.ModeOK == v.mode) && k.Name != "over-long-line" && len(k.Causes) == 1 && (k.Causes[0] == "ip" || k.Causes[0] == "port") {
+						class = k.Name
+						break
+					}
+				}
+			}
+			c.Lines = append(c.Lines, mkLine(class, j))
+		}
+		cases = append(cases, c)
+	}
 	return cases
 }
 
